@@ -617,7 +617,13 @@ func (w *World) loadContracts(specDir string) error {
 			continue
 		}
 		if w.fns[nm] == nil {
-			return fmt.Errorf("%s: contract for %s does not bind to any function in /repo (vacuity guard a)", ct.Loc, nm)
+			// the function under contract does not exist (any more): not a tool error but a failed structural obligation of every
+			// property the contract lists (reported by `check`; on the unchanged tree this cannot happen without being noticed)
+			if w.unbound == nil {
+				w.unbound = map[string]*Contract{}
+			}
+			w.unbound[nm] = ct
+			delete(w.contracts, nm)
 		}
 	}
 	return nil
